@@ -454,7 +454,9 @@ impl Parser {
             return false;
         }
         for msg in &self.errors {
-            eprintln!("{}", msg);
+            // (a failed write to stderr must not panic the interpreter)
+            use std::io::Write;
+            let _ = writeln!(std::io::stderr(), "{}", msg);
         }
         true
     }
